@@ -59,10 +59,51 @@ def run(ctx, model_available=True):
     for z in zones:
         for v in (None, "1.4", "2.2"):
             hs.append(([("recv", f"0;255;3;0;2;{v}", ())] if v else []) + [("recv", "7;255;3;0;1;", ()), ("recv", "0;255;3;0;1;", ())])
-    return run_property(ctx, "C06", profiles=profiles, histories=hs, run_hist=run_hist, n_quick=700, n_thorough=12000, oracle=oracle_c06,
+    res = run_property(ctx, "C06", profiles=profiles, histories=hs, run_hist=run_hist, n_quick=700, n_thorough=12000, oracle=oracle_c06,
                         model_available=model_available,
                         assumptions=["the time reply is compared with the controller clock bracketed around the step (calendar.timegm(time.localtime()))",
                                      "write-fault steps are excluded here (C08/C10 cover them); order between a presentation request and the version query is compared through the model, the oracle compares multisets"])
+    res["failures"].extend(default_config_is_per_gateway())
+    return res
+
+
+def default_config_is_per_gateway():
+    """'M' or 'I' per configuration: gateways built without an explicit Config each have their own;
+    switching one of them to imperial must not change what another one (created before or after)
+    answers to a config request."""
+    import asyncio
+
+    from common import Gateway, ScriptedTransport
+
+    fs = []
+    loop = asyncio.new_event_loop()
+
+    def ask(gw, tr):
+        tr.writes = []
+        tr.inq.append("7;255;3;0;6;")
+        agen = gw.listen()
+        try:
+            loop.run_until_complete(agen.__anext__())
+        finally:
+            loop.run_until_complete(agen.aclose())
+        return [w for w, _ in tr.writes if w.split(";")[4] == "6"]
+
+    ta, tb, tc = ScriptedTransport(), ScriptedTransport(), ScriptedTransport()
+    a, b = Gateway(ta), Gateway(tb)
+    for g in (a, b):
+        g.protocol_version = "2.2"
+    before = ask(b, tb)
+    a.config.metric = False
+    c = Gateway(tc)
+    c.protocol_version = "2.2"
+    got = {"a": ask(a, ta), "b": ask(b, tb), "c": ask(c, tc)}
+    want = {"a": ["7;255;3;0;6;I\n"], "b": ["7;255;3;0;6;M\n"], "c": ["7;255;3;0;6;M\n"]}
+    if before != want["b"] or got != want:
+        fs.append({"kind": "oracle", "sig": "C06:config-shared",
+                   "desc": f"three gateways built without an explicit Config, the first switched to imperial: config requests answered {got} (before the switch the second answered {before}), the property specifies {want}",
+                   "case": {"got": got}})
+    loop.close()
+    return fs
 
 
 def replay(ctx, rp):
